@@ -99,6 +99,11 @@ class SyncWorker(base.Worker):
                     if listener == self.PIPE[0]:
                         continue
 
+                    # max_requests reached (or asked to stop) while serving
+                    # the previous listener: take no further connection
+                    if not self.alive:
+                        break
+
                     try:
                         self.accept(listener)
                     except OSError as e:
